@@ -221,6 +221,20 @@ func genCfg(root, common, freelist *pkgInfo) string {
 	fmt.Fprintf(&b, "def growTruncateSrc : String := %s\n", leanStr(firstCallSrc(gr, "db.file.Truncate")))
 	cm := findFunc(root, "Tx", "Commit")
 	fmt.Fprintf(&b, "def commitGrowCall : String := %s\n", leanStr(firstCallSrc(cm, "tx.db.grow")))
+	// Batch
+	bt := findFunc(root, "DB", "Batch")
+	fmt.Fprintf(&b, "\ndef batchTimerSrc : String := %s\n", leanStr(findStmtSrc(bt, func(s string) bool { return strings.HasPrefix(s, "db.batch.timer =") })))
+	fmt.Fprintf(&b, "def batchFullSrc : String := %s\n", leanStr(findStmtSrc(bt, func(s string) bool { return strings.HasPrefix(s, "if len(db.batch.calls) >= db.MaxBatchSize {") })))
+	fmt.Fprintf(&b, "def batchNewSrc : String := %s\n", leanStr(findStmtSrc(bt, func(s string) bool { return strings.HasPrefix(s, "if (db.batch == nil)") })))
+	fmt.Fprintf(&b, "def batchSoloSrc : String := %s\n", leanStr(findStmtSrc(bt, func(s string) bool { return strings.HasPrefix(s, "if err == trySolo {") })))
+	tg := findFunc(root, "batch", "trigger")
+	fmt.Fprintf(&b, "def batchTriggerSrc : String := %s\n", leanStr(srcOf(tg.Body)))
+	rn := findFunc(root, "batch", "run")
+	fmt.Fprintf(&b, "def batchRunLoopSrc : String := %s\n", leanStr(findStmtSrc(rn, func(s string) bool { return strings.HasPrefix(s, "for len(b.calls) > 0 {") })))
+	sc := findFunc(root, "", "safelyCall")
+	fmt.Fprintf(&b, "def safelyCallSrc : String := %s\n", leanStr(srcOf(sc.Body)))
+	up := findFunc(root, "DB", "Update")
+	fmt.Fprintf(&b, "def updateSrc : String := %s\n", leanStr(srcOf(up.Body)))
 	b.WriteString("\nend Bolt.Gen\n")
 	return b.String()
 }
